@@ -18,7 +18,12 @@ import (
 
 var attrNames = []string{"a", "b", "l"}
 var attrSorts = map[string]vlang.Sort{"a": vlang.SI, "b": vlang.SI, "l": vlang.SL}
-var attrSet = map[string]bool{"a": true, "b": true, "l": true}
+var attrSet = map[string]bool{"a": true, "b": true, "l": true, "f": true, "g": true}
+
+// second attribute set: attributes that hold closures (called implicitly as f(..), explicitly as the
+// method-call form this.f(..), whose arguments are compiled with the receiver on the stack)
+var attrNamesF = []string{"a", "f", "g"}
+var attrSortsF = map[string]vlang.Sort{"a": vlang.SI, "f": vlang.SF2, "g": vlang.SF1}
 
 func addHost(g *value.FunctionGenerator) {
 	g.AddStaticFunction("obs2", funcGen.Function[value.Value]{
@@ -52,14 +57,16 @@ func maps(g *value.FunctionGenerator, av int) []mapArg {
 		}
 		return v
 	}
-	lit := value.NewMap(listMap.New[value.Value](4).Append("a", value.Int(av)).Append("b", value.Int(2)).
-		Append("l", value.NewList(value.Int(1), value.Int(2))).Append("pi", value.Int(7)))
+	fv := ev("(x,y)->x*100+y")
+	gv := ev("x->x+1")
+	lit := value.NewMap(listMap.New[value.Value](6).Append("a", value.Int(av)).Append("b", value.Int(2)).
+		Append("l", value.NewList(value.Int(1), value.Int(2))).Append("pi", value.Int(7)).Append("f", fv).Append("g", gv))
 	return []mapArg{
 		{"literal", lit},
-		{"real(eval)", ev("{a:av,b:2,l:[1,2],pi:7}.eval()")},
-		{"append(put)", ev("{l:[1,2]}.put(\"b\",2).put(\"pi\",7).put(\"a\",av)")},
-		{"merge(+)", ev("{a:av,pi:7}+{b:2,l:[1,2]}")},
-		{"replace", ev("{a:100,b:2,l:[1,2],pi:7}.replace(m->{a:av})")},
+		{"real(eval)", ev("{a:av,b:2,l:[1,2],pi:7,f:(x,y)->x*100+y,g:x->x+1}.eval()")},
+		{"append(put)", ev("{l:[1,2],f:(x,y)->x*100+y}.put(\"b\",2).put(\"pi\",7).put(\"g\",x->x+1).put(\"a\",av)")},
+		{"merge(+)", ev("{a:av,pi:7,g:x->x+1}+{b:2,l:[1,2],f:(x,y)->x*100+y}")},
+		{"replace", ev("{a:100,b:2,l:[1,2],pi:7,f:(x,y)->x*100+y,g:x->x+1}.replace(m->{a:av})")},
 	}
 }
 
@@ -217,6 +224,36 @@ func run(ctx *bex.Ctx) {
 		})
 	}
 	ctx.SpaceDone(fmt.Sprintf("every nesting of <= %d binding/call constructs with the maximal observer over attributes and locals; maps {a in {0,3}, b, l, pi} in 5 representations; optimizer on/off", maxB))
+
+	ctx.Space("closure-attributes")
+	{
+		en := vlang.DefaultEnum()
+		idx = 0
+		for n := 1; n <= maxA && !ctx.Expired(); n++ {
+			en.Gen(vlang.SI, n, vlang.NewAttrScope(attrSortsF, attrNamesF), true, func(p *vlang.Node) bool {
+				idx++
+				if !ctx.Mine(idx) {
+					return true
+				}
+				if ctx.Expired() {
+					return false
+				}
+				h.check(ctx, p, false)
+				return true
+			})
+		}
+		if ctx.Shard == 0 {
+			v, I, op := vlang.V, vlang.I, vlang.Op
+			for _, p := range []*vlang.Node{
+				vlang.CallN(v("f"), v("a"), vlang.LetN("t", op("*", v("a"), I(2)), v("t"))),
+				op("+", vlang.CallN(v("f"), I(7), I(8)), vlang.CallN(v("f"), vlang.LetN("t", I(5), v("t")), vlang.FuncN("q", []string{"n"}, op("+", v("n"), v("a")), vlang.CallN(v("q"), I(1))))),
+				vlang.CallN(v("g"), vlang.CallN(v("f"), vlang.LetN("u", v("a"), vlang.LetN("w", op("+", v("u"), I(1)), op("*", v("u"), v("w")))), vlang.CallN(v("g"), v("a")))),
+			} {
+				h.check(ctx, p, true)
+			}
+		}
+	}
+	ctx.SpaceDone(fmt.Sprintf("every int-sorted program of the typed grammar with <= %d nodes over attributes a (int), f ((int,int)->int), g (int->int): calls of closure-valued attributes with let/func inside their arguments; implicit f(..) against the method-call form this.f(..); plus 3 fixed templates on all 5 map representations", maxA))
 
 	ctx.Space("tierA-typed-grammar")
 	en := vlang.DefaultEnum()
